@@ -15,6 +15,7 @@ EXPLANATION = ("transport->serialiser binding, layout-agreement and loop-shape r
                "section's counter is incremented; TC is OR-ed into octet 2 exactly under the flag; the advertised size is "
                "max(OPT class or 512, 512)")
 ASSUMPTIONS = ["not decided: that every emitted byte string re-parses (only layout / patch / count structure is checked)"]
+EXPLANATION += "; also: flag-free formulations of skipped-after-truncation / TC / count patches are accepted as alternatives; C03's truncated-reply clause is evaluated here too"
 EXTRA_CONFIGS = ["dns"]
 
 SWS_SIG = (["DNSPkt", "usize"], "Vec<u8>")
